@@ -32,6 +32,10 @@ def chengWeights (counts : List Nat) : Except String (List α) := chengWeightsFo
 def HvAz.weights (s : HvAz α) : Except String (List α) :=
   chengWeights (s.hvsrs.map (fun h => countTrue h.vPeak))
 
+/-- weights of the curve statistics: the rows are selected by the valid-*window* mask, so are the counts -/
+def HvAz.windowWeights (s : HvAz α) : Except String (List α) :=
+  chengWeights (s.hvsrs.map (fun h => countTrue h.vWin))
+
 def HvAz.updatePeaks (r : Range α) (kwEmpty : Bool) (s : HvAz α) : HvAz α :=
   { s with hvsrs := s.hvsrs.map (HV.updatePeaks r kwEmpty) }
 
@@ -59,10 +63,10 @@ def HvAz.validRows (s : HvAz α) : List (List α) := s.hvsrs.flatMap HvTrad.vali
 
 def HvAz.nfreq (s : HvAz α) : Nat := match s.hvsrs with | [] => 0 | h :: _ => h.freq.length
 
-/-- `mean_curve`: weights come from the valid-*peak* counts, rows from the valid-*window* mask;
-numpy refuses to broadcast when they disagree -/
+/-- `mean_curve`: rows and weights both follow the valid-*window* mask (`windowWeights`); the length test below is kept
+as a guard for ill-formed objects (masks of another length than the rows) -/
 def HvAz.meanCurve (d : Dist) (s : HvAz α) : Except String (List (Option α)) :=
-  match s.weights with
+  match s.windowWeights with
   | .error e => .error e
   | .ok w =>
     let rows := s.validRows
@@ -70,7 +74,7 @@ def HvAz.meanCurve (d : Dist) (s : HvAz α) : Except String (List (Option α)) :
     else .ok ((List.range s.nfreq).map (fun j => nanmeanW d ((column rows j).map some) (some w)))
 
 def HvAz.stdCurve (d : Dist) (s : HvAz α) : Except String (List (Option α)) :=
-  match s.weights with
+  match s.windowWeights with
   | .error e => .error e
   | .ok w =>
     let rows := s.validRows
